@@ -71,7 +71,7 @@ func (f *FrameSpec) bytesOf(msize int) (raw []byte, final bool) {
 			body[i] = byte(i * 13)
 		}
 		return refwire.FrameRaw(body), false
-	case "garbage":
+	case "garbage", "statpad":
 		return refwire.FrameRaw(f.Body), false
 	case "short":
 		enc := refwire.Encode(&f.Msg)
@@ -158,7 +158,7 @@ func expectFor(raw []byte, msize int, final bool) expect {
 }
 
 func genFrame(t *rapid.T, msize int, last bool) FrameSpec {
-	classes := []string{"valid", "valid", "valid", "fill", "oversize", "garbage", "short", "short", "tiny"}
+	classes := []string{"valid", "valid", "valid", "fill", "oversize", "garbage", "short", "short", "tiny", "statpad"}
 	if last {
 		classes = append(classes, "badprefix", "badprefix", "cutstream", "cutstream", "cutoversize", "hugeprefix")
 	}
@@ -186,6 +186,30 @@ func genFrame(t *rapid.T, msize int, last bool) FrameSpec {
 	case "oversize":
 		f.Msg = small()
 		f.K = rapid.OneOf(rapid.SampledFrom([]int{1, 2, 3, 4, 5, 23}), rapid.IntRange(1, 3000)).Draw(t, "k")
+	case "statpad":
+		// a well-formed Rstat/Twstat whose stat record is longer than its known fields (both
+		// size fields say so consistently): the manual's size[2] exists so that the record can
+		// grow, and the pinned decoder honours it.  Falls back to a plain message when msize is too small.
+		m := refwire.Msg{Kind: rapid.SampledFrom([]uint8{refwire.Rstat, refwire.Twstat}).Draw(t, "statkind"), Tag: gen.U16().Draw(t, "tag"), Fid: gen.U32().Draw(t, "fid"), Stat: gen.Stat(gen.Sizes{}).Draw(t, "stat")}
+		gen.Shrink(&m, rapid.SampledFrom([]int{0, 3, 40}).Draw(t, "cap"))
+		pad := rapid.SampledFrom([]int{1, 2, 14, 30}).Draw(t, "pad")
+		enc := refwire.Encode(&m)
+		if 4+len(enc)+pad > msize {
+			f.Class = "valid"
+			f.Msg = small()
+			break
+		}
+		off := 3
+		if m.Kind == refwire.Twstat {
+			off += 4
+		}
+		for _, o := range []int{off, off + 2} {
+			binary.LittleEndian.PutUint16(enc[o:], binary.LittleEndian.Uint16(enc[o:])+uint16(pad))
+		}
+		for i := 0; i < pad; i++ {
+			enc = append(enc, byte(0xE0+i))
+		}
+		f.Body = harn.B(enc)
 	case "garbage":
 		n := rapid.IntRange(0, 40).Draw(t, "n")
 		if n > msize-4 {
